@@ -43,7 +43,7 @@ from props import c03
 from props.c04 import hx, E, run_exe, lines_of, parse_op
 
 GROUP = 'undo'
-TRUSTED = ['the Python ghost-disk oracle of tools/props/c02.py', 'file snapshots taken from inside the editor with `w !cp file snap` (shell cp)']
+TRUSTED = ['the Python ghost-disk oracle of tools/props/c02.py', 'file snapshots taken from inside the editor with `w !cp file snap` (shell cp); in sessions started without a file name with `rx z cp file snap`']
 
 # ---------------------------------------------------------------------------------------------
 # line-buffer level.  'L' = reload (:e!): lbuf_edit over the whole buffer with the file content, lbuf_saved(lb, 0)
@@ -780,6 +780,8 @@ def oracle_history(files, cmds, obs, exited_at, snaps, fault=None, final=None, n
         if kind == 'b':
             ids_before = {i for (i, _, _, _) in obs[k - 1]['listing']}
             skip = int(ctext.split()[1]) not in ids_before          # "no such buffer": refused for another reason
+        if kind == 'e' and ctext == 'e #' and len(obs[k - 1]['listing']) < 2:
+            skip = True                                             # no alternate buffer: "pathname ... is not set", whatever the order of the two tests
         if kind in ('e', 'b', 'eself') and not skip:
             if dirty_before[prev_cur]:
                 if cur != prev_cur or not refused:
@@ -950,6 +952,8 @@ def run_history(exe, model_q, files, cmds, timeout=30, nbufs=16, shim=None, sche
             if k < len(obs) and flags and obs[k]['listing']:
                 ans = 'refused' if b'buffer modified' in obs[k]['cmdout'] else 'pass %s' % ('1' if obs[k]['listing'][0][3] == '*' else '0')
                 qs.append((('GO ' if '%' in cmds[k - 1][1] else 'GE ') + ' '.join(flags), ans, k))
+        elif kind == 'e' and cmds[k - 1][1] == 'e #' and len(obs[k - 1]['listing']) < 2:
+            pass
         elif k < len(obs) and not (kind == 'b' and int(cmds[k - 1][1].split()[1]) not in {i for (i, _, _, _) in obs[k - 1]['listing']}):
             qs.append(('G ' + ' '.join(flags), 'refused' if b'buffer modified' in obs[k]['cmdout'] else 'pass', k))
     # the first step with an injected error: the same command with the same schedule for the model with failing writes
